@@ -32,6 +32,12 @@ use crate::common::*;
 use crate::world;
 
 const CHILDREN: &[&str] = &["ca1", "ca2"];
+/// A child of the trust anchor whose provisioning requests reach the proxy
+/// one at a time: the harness plays it through the entry that processes a
+/// validated request (hook verif_rfc6492_process_request; krill refuses
+/// signed messages addressed to the trust anchor, and a hosted child
+/// presents all its requests in one synchronisation).
+const REMOTE: &str = "rc";
 
 fn ta() -> CaHandle {
     world::ca_handle("ta")
@@ -120,6 +126,11 @@ struct World {
     /// identity keys of the signers and other keys used for signing
     known_keys: Vec<(rpki::crypto::PublicKey, String)>,
     rand_key: Option<KeyIdentifier>,
+    /// the remote child: certificate keys by model name, what it wants and
+    /// what it holds (the environment's book-keeping)
+    rc_keys: BTreeMap<String, KeyIdentifier>,
+    rc_want: BTreeSet<String>,
+    rc_have: BTreeSet<String>,
 }
 
 fn short(s: &str) -> String {
@@ -176,6 +187,8 @@ impl World {
             ta_key_pem, idnames: HashMap::new(), nonces: Vec::new(),
             ckeys: HashMap::new(), msgs: Vec::new(), reinits: 0,
             known_keys: Vec::new(), rand_key: None,
+            rc_keys: BTreeMap::new(),
+            rc_want: BTreeSet::new(), rc_have: BTreeSet::new(),
         };
         let proxy_ki = w.env.krill.ca_manager().ta_proxy_id().map_err(|e| {
             e.to_string()
@@ -196,6 +209,20 @@ impl World {
                 &w.env, &handle, &ta(),
                 world::resources("", &format!("10.{i}.0.0/16"), ""),
             )?;
+        }
+        // the remote child: known to the proxy by an identity of its own
+        {
+            let id_cert = w.env.krill.signer().create_self_signed_id_cert()
+                .map_err(|e| e.to_string())?;
+            w.env.krill.ca_manager().ca_add_child(
+                &ta(),
+                krill::api::admin::AddChildRequest {
+                    handle: world::ca_handle(REMOTE).convert(),
+                    resources: world::resources("", "10.9.0.0/16", ""),
+                    id_cert,
+                },
+                &actor, &w.env.krill,
+            ).map_err(|e| format!("add remote child: {e}"))?;
         }
         w.publish_ta();
         Ok(w)
@@ -249,6 +276,10 @@ impl World {
     }
 
     fn ckey_name(&mut self, child: &str, ki: &KeyIdentifier) -> String {
+        if child == REMOTE {
+            return self.rc_keys.iter().find(|(_, k)| *k == ki)
+                .map(|(n, _)| n.clone()).unwrap_or_else(|| format!("?{ki}"))
+        }
         let keys = self.ckeys.entry(child.into()).or_default();
         let pos = match keys.iter().position(|k| k == ki) {
             Some(pos) => pos,
@@ -317,7 +348,7 @@ impl World {
         st.insert("assoc".into(), json!(assoc));
         let mut reqs = serde_json::Map::new();
         let mut resp = serde_json::Map::new();
-        for child in CHILDREN {
+        for child in CHILDREN.iter().chain(std::iter::once(&REMOTE)) {
             let details = pj.pointer(&format!("/child_details/{child}"))
                 .cloned().unwrap_or(Value::Null);
             reqs.insert(child.to_string(), json!(self.req_ids(
@@ -397,6 +428,12 @@ impl World {
             want.insert(child.to_string(), json!(w));
             have.insert(child.to_string(), json!(h));
         }
+        want.insert(REMOTE.to_string(), json!(
+            self.rc_want.iter().cloned().collect::<Vec<_>>()
+        ));
+        have.insert(REMOTE.to_string(), json!(
+            self.rc_have.iter().cloned().collect::<Vec<_>>()
+        ));
         st.insert("want".into(), Value::Object(want));
         st.insert("have".into(), Value::Object(have));
         Value::Object(st)
@@ -538,6 +575,103 @@ impl World {
     fn sync(&mut self, a: &Value) -> Res {
         let child = world::ca_handle(str_arg(a, "c"));
         world::sync_parent(&self.env, &child, &ta()).map(|_| json!({}))
+    }
+
+    /// The remote child gets something to ask for ("i:ka": a certificate
+    /// for its key ka, "r:ka": the revocation of that key).
+    fn rwants(&mut self, a: &Value) -> Res {
+        let r = str_arg(a, "r").to_string();
+        let key = r.split(':').nth(1).unwrap_or("").to_string();
+        if !self.rc_keys.contains_key(&key) {
+            let ki = self.env.krill.signer().create_key().map_err(|e| {
+                e.to_string()
+            })?;
+            self.rc_keys.insert(key, ki);
+        }
+        self.rc_want.insert(r);
+        Ok(json!({}))
+    }
+
+    /// One provisioning request of the remote child, processed the way a
+    /// validated request is.
+    fn rc_send(
+        &mut self, msg: rpki::ca::provisioning::Message,
+    ) -> Result<rpki::ca::provisioning::Payload, String> {
+        let krill = self.env.krill.clone();
+        let actor = world::actor(&self.env);
+        krill.ca_manager().verif_rfc6492_process_request(
+            &ta(), msg, Some("remote".into()), &actor, &krill,
+        ).map(|m| m.into_payload()).map_err(|e| e.to_string())
+    }
+
+    fn sync_one(&mut self, a: &Value) -> Res {
+        use rpki::ca::provisioning::{
+            IssuanceRequest, Message, Payload, RequestResourceLimit,
+            RevocationRequest,
+        };
+        let r = str_arg(a, "r").to_string();
+        if !self.rc_want.contains(&r) {
+            return Err("not wanted".into())
+        }
+        let key = r.split(':').nth(1).unwrap_or("").to_string();
+        let ki = *self.rc_keys.get(&key).ok_or("unknown key")?;
+        let sender = rpki::ca::idexchange::SenderHandle::from_str(REMOTE)
+            .map_err(|e| e.to_string())?;
+        let recipient: rpki::ca::idexchange::RecipientHandle
+            = ta().convert();
+        // the class name the trust anchor uses for its children
+        let class = match self.rc_send(
+            Message::list(sender.clone(), recipient.clone())
+        )? {
+            Payload::ListResponse(list) => {
+                list.classes().first().map(|c| c.class_name().clone())
+                    .ok_or("nothing on offer")?
+            }
+            other => return Err(format!("list: {other:?}")),
+        };
+        let msg = if r.starts_with("i:") {
+            let repo = rpki::ca::idexchange::RepoInfo::new(
+                uri::Rsync::from_str(
+                    "rsync://elsewhere.example.org/repo/rc/"
+                ).unwrap(),
+                Some(uri::Https::from_str(
+                    "https://elsewhere.example.org/rrdp/notification.xml"
+                ).unwrap()),
+            );
+            let csr = self.env.krill.signer().sign_csr(&repo, "0", &ki)
+                .map_err(|e| format!("csr: {e}"))?;
+            Message::issue(sender, recipient, IssuanceRequest::new(
+                class, RequestResourceLimit::new(), csr
+            ))
+        }
+        else {
+            Message::revoke(
+                sender, recipient, RevocationRequest::new(class, ki)
+            )
+        };
+        match self.rc_send(msg)? {
+            Payload::IssueResponse(_) => {
+                self.rc_want.remove(&r);
+                self.rc_have.insert(key);
+                Ok(json!({"got": "issued"}))
+            }
+            Payload::RevokeResponse(_) => {
+                self.rc_want.remove(&r);
+                self.rc_have.remove(&key);
+                Ok(json!({"got": "revoked"}))
+            }
+            Payload::ErrorResponse(e) => {
+                // 1104 scheduled for processing / 1101 already scheduled
+                let code = e.status();
+                if code == 1104 || code == 1101 {
+                    Ok(json!({"got": format!("{code}")}))
+                }
+                else {
+                    Err(format!("error response: {e}"))
+                }
+            }
+            other => Err(format!("unexpected reply: {other:?}")),
+        }
     }
 
     fn roll(&mut self, a: &Value) -> Res {
@@ -834,6 +968,8 @@ pub fn run(behaviours: &Path, out: &Path, workdir: &Path) {
             let before = w.finger();
             let res = match name {
                 "Sync" => w.sync(a),
+                "RWants" => w.rwants(a),
+                "SyncOne" => w.sync_one(a),
                 "Roll" => w.roll(a),
                 "Activate" => w.activate(a),
                 "MakeReq" => w.make_req(false),
